@@ -27,6 +27,8 @@ type engine struct {
 	types  []string
 	orders []int
 	stop   bool
+	// the object-history reuse modes rotate through polHists[3:nPolHist]
+	nPolHist int
 }
 
 func (e *engine) expired() bool {
@@ -82,7 +84,7 @@ func aliasLabel(p *Program, reg int) string {
 
 func suffixFails(cs *Case, fails []failure) {
 	al := hasAlias(&cs.Prog)
-	if cs.Stale > 0 || cs.Act != "" {
+	if cs.Stale > 0 || cs.Act != "" || cs.Hist != nil {
 		// only reached when the same case passed on fresh variable objects activated by Variables():
 		// keyed by the activation route, whatever the program is
 		route := cs.Act
@@ -90,8 +92,27 @@ func suffixFails(cs *Case, fails []failure) {
 			route = "Variables"
 		}
 		for i := range fails {
+			if h := cs.Hist; h != nil {
+				fails[i].key = fmt.Sprintf("reactivation|%s|%s|after-in-place-update", route, cs.Type)
+				fails[i].what += fmt.Sprintf(" (variables re-activated through %s after an order-%d round from x=%v in which every variable was updated in place by %v; passes on fresh variable objects)", route, h.Order, h.X0, h)
+				continue
+			}
 			fails[i].key = fmt.Sprintf("reactivation|%s|%s", route, cs.Type)
 			fails[i].what += fmt.Sprintf(" (variables re-activated through %s after use as order-%d result registers; passes on fresh variable objects)", route, cs.Stale)
+		}
+		return
+	}
+	if cs.Pollute >= 3 {
+		// only reached when the same program passed on fresh objects: keyed by the history of the
+		// reused objects (orders of the earlier contents), whatever the program is
+		form := "ssa"
+		if al {
+			form = "in-place"
+		}
+		h := polHists[cs.Pollute]
+		for i := range fails {
+			fails[i].key = fmt.Sprintf("object-history|%s|%s|%s", h.orderString(), form, cs.Type)
+			fails[i].what += fmt.Sprintf(" (registers, scratch temporaries and constant-valued magic scalars are reused objects that held contents of orders %v before; passes on fresh objects)", h)
 		}
 		return
 	}
@@ -121,6 +142,9 @@ func (e *engine) evalCase(cs *Case, jets []Jet, m *Model, rank int64) (cmpStats,
 		}
 	}
 	p := &cs.Prog
+	if cs.Pollute >= 3 {
+		cs.RegHist = polHists[cs.Pollute].String()
+	}
 	e.c.Guard(finalName(p), rank, nil)
 	out := rt.run(p, cs, nil)
 	fails, st := compareRegs(m, p, cs, &out, jets)
@@ -138,6 +162,11 @@ func (e *engine) evalCase(cs *Case, jets []Jet, m *Model, rank int64) (cmpStats,
 	}
 	if st.kinks > 0 {
 		e.c.Count("kink_registers_bounded_by_one_sided_derivatives", int64(st.kinks))
+	}
+	if len(p.Ins) == 1 && ops[p.Ins[0].Op].Kind == Reduce && st.checkedRegs > 0 {
+		for _, zc := range zeroClasses(&p.Ins[0], cs.X) {
+			e.c.Count("depth1_reductions_compared_on_zero_pattern:"+zc, 1)
+		}
 	}
 	if st.nonsmooth > 0 {
 		e.c.Count("nonsmooth_registers_structure_checked", int64(st.nonsmooth))
@@ -175,11 +204,12 @@ func (e *engine) runProgram(p *Program, pts [][]float64, o evalOpts) {
 	reactStride := o.react
 	var variants []Program
 	var variantFresh []bool
+	pols := [4]int{0, 1, 2, 3}
 	stride := o.alias
 	if stride > 0 {
 		variants = aliasVariants(p, nil)
 		for i := range variants {
-			variantFresh = append(variantFresh, usesFreshObjects(&variants[i]))
+			variantFresh = append(variantFresh, usesFreshObjects(&variants[i]) || usesConstObjects(&variants[i]))
 		}
 		e.c.Count("in_place_programs", int64(len(variants)))
 	}
@@ -196,26 +226,40 @@ func (e *engine) runProgram(p *Program, pts [][]float64, o evalOpts) {
 				pis = 9999
 			}
 			var stFresh cmpStats
+			// the very first register lies outside the operation's domain: nothing is compared, the call is
+			// made once per order (fresh registers, SSA form) and not repeated in the reuse / in-place /
+			// re-activation modes (out of its domain the library's GammaP spends 5 ms per call)
+			outside := jets[0].Status == stUndefined
+			// reuse modes: fresh objects, objects reused from an order-1 / order-2 computation, and one
+			// longer object history (two earlier contents; thorough: also three), rotating with the
+			// point and the program so that every operation meets every history on its lattice
+			pols[3] = 3 + int((int64(pi)+e.idx)%int64(e.nPolHist-3))
 			for _, order := range e.orders {
-				var passed [3]bool
-				for pol := 0; pol <= 2; pol++ {
-					if pol > 0 && !o.pollAllPoints && pi >= 2 {
+				var passed [4]bool
+				for q, pol := range pols {
+					if pol > 0 && ((!o.pollAllPoints && pi >= 2) || outside) {
 						continue
 					}
 					cs := Case{Prog: *p, Type: typ, Order: order, X: xr, Pollute: pol}
-					rank := depth*1e15 + int64(pol)*1e14 + pis*1e10 + e.idx%1e10
+					rank := depth*1e15 + int64(min(pol, 3))*1e14 + pis*1e10 + e.idx%1e10
 					st, failed := e.evalCase(&cs, jets, m, rank)
-					passed[pol] = !failed
+					passed[q] = !failed
 					if pol == 0 && order == 2 {
 						stFresh = st
 					}
 					if pol == 0 && failed {
 						break // the reused-register variants would only repeat this failure
 					}
+					if pol >= 3 {
+						e.c.Count("object_history_evaluations", 1)
+					}
 				}
 				// re-activated variables: same reference jets again. One (route, stale order) combination
 				// per point, rotating with the point and the program, so that every operation meets every
 				// combination on its lattice
+				if outside {
+					continue
+				}
 				if rs := reactStride; rs > 0 && passed[0] && pi%rs == 0 {
 					k := (int64(pi/rs) + e.idx) % int64(2*len(actRoutes))
 					cs := Case{Prog: *p, Type: typ, Order: order, X: xr, Stale: 1 + int(k%2), Act: actRoutes[k/2]}
@@ -229,14 +273,17 @@ func (e *engine) runProgram(p *Program, pts [][]float64, o evalOpts) {
 					continue
 				}
 				for vi := range variants {
-					for pol := 0; pol <= 2; pol++ {
-						if pol > 0 && (!passed[pol] || !variantFresh[vi]) {
+					for q, pol := range pols {
+						if pol > 0 && (!passed[q] || !variantFresh[vi]) {
 							continue
 						}
 						cs := Case{Prog: variants[vi], Type: typ, Order: order, X: xr, Pollute: pol}
-						rank := depth*1e15 + 5e13 + int64(pol)*1e14 + pis*1e10 + e.idx%1e10
+						rank := depth*1e15 + 5e13 + int64(min(pol, 3))*1e14 + pis*1e10 + e.idx%1e10
 						if _, failed := e.evalCase(&cs, jets, m, rank); failed && pol == 0 {
 							break
+						}
+						if pol >= 3 {
+							e.c.Count("object_history_evaluations", 1)
 						}
 					}
 				}
@@ -515,10 +562,151 @@ func (e *engine) phaseDepth1Reduce(thorough bool) {
 			}
 		}
 		pts := gridPoints(grid, n)
-		reduceInstrs(n, 0, maxLen, -1, thorough, func(in Instr) {
+		reduceInstrs(n, 0, maxLen, -1, thorough, true, func(in Instr) {
 			p := Program{N: n, Ins: []Instr{in}}
 			e.runProgram(&p, pts, evalOpts{pollAllPoints: n <= 2, helpers: true, react: 1, helpersStale: true})
 		})
+	}
+}
+
+// updateForms: every depth-1 program of the scalar alphabet that overwrites a variable in place
+// and reads that variable itself (see VarHist). Heavy operations (tens of microseconds per
+// call) only in the thorough tier.
+func updateForms(n int, thorough bool) []VarHist {
+	var r []VarHist
+	all := append(opsOfKind(Unary, false), opsOfKind(Binary, false)...)
+	if !thorough {
+		all = lightOps(all)
+	}
+	for _, op := range all {
+		o := ops[op]
+		if o.Kind == Unary {
+			r = append(r, VarHist{Op: o.Name, Par: o.Par, Form: "a"})
+			continue
+		}
+		for _, other := range []string{"V", "T", "K", "P"} {
+			if other == "V" && n == 1 {
+				continue // the next variable is the variable itself: form "ab"
+			}
+			for _, form := range []string{"a", "b"} {
+				r = append(r, VarHist{Op: o.Name, Par: o.Par, Form: form, Other: other})
+			}
+		}
+		r = append(r, VarHist{Op: o.Name, Par: o.Par, Form: "ab"})
+	}
+	return r
+}
+
+// reactivationProbes: programs that carry the complete derivative state of every variable into
+// a compared register: each variable alone (x_i + const), their mean, and <x, x>.
+func reactivationProbes(n int) []Program {
+	var ps []Program
+	var all []Operand
+	for i := 0; i < n; i++ {
+		in := mkInstr(findOp("Add", 0))
+		in.A, in.B = Operand{K: 'V', I: i}, Operand{K: 'K', V: constK}
+		ps = append(ps, Program{N: n, Ins: []Instr{in}})
+		all = append(all, Operand{K: 'V', I: i})
+	}
+	if n > 1 {
+		in := mkInstr(findOp("Vmean", 0))
+		in.Vec = all
+		ps = append(ps, Program{N: n, Ins: []Instr{in}})
+	}
+	in := mkInstr(findOp("VdotV", 0))
+	in.Vec, in.Vec2 = all, all
+	ps = append(ps, Program{N: n, Ins: []Instr{in}})
+	return ps
+}
+
+// Variables that are re-activated after an earlier differentiation round in which they were
+// updated in place: for every update form x earlier point x earlier order x new order x
+// activation route, the probes must report the derivatives of a freshly seeded variable.
+func (e *engine) phaseReactivation(thorough bool) {
+	for n := 1; n <= 3; n++ {
+		grid := compGridSmall
+		if n == 3 && !thorough {
+			grid = []float64{0.25, 3}
+		}
+		pts := gridPoints(grid, n)
+		probes := reactivationProbes(n)
+		var jets [][]Jet
+		for _, u := range updateForms(n, thorough) {
+			for pi, x0 := range pts {
+				e.idx++
+				if !e.c.Mine(e.idx) || e.expired() {
+					continue
+				}
+				for _, typ := range e.types {
+					rt := rtOf(typ)
+					m := newModel(typ, n)
+					h := u
+					h.X0 = roundPoint(x0, m.F32)
+					h.Order = 1
+					// the point the variables hold after the earlier round
+					var x []float64
+					if msg := func() (msg string) {
+						defer func() {
+							if r := recover(); r != nil {
+								msg = fmt.Sprint(r)
+							}
+						}()
+						for _, v := range rt.buildHist(&h) {
+							x = append(x, v.GetFloat64())
+						}
+						return ""
+					}(); msg != "" {
+						e.c.Count("reactivation_histories_update_panics", 1)
+						continue
+					}
+					ok := true
+					for _, v := range x {
+						ok = ok && !math.IsNaN(v) && !math.IsInf(v, 0)
+					}
+					if !ok {
+						e.c.Count("reactivation_histories_update_leaves_domain", 1)
+						continue
+					}
+					e.c.Count("reactivation_histories", 1)
+					jets = jets[:0]
+					for k := range probes {
+						jets = append(jets, m.EvalProgram(&probes[k], x, nil))
+					}
+					rank := int64(1e15) + 8e13 + int64(pi)*1e10 + e.idx%1e10
+					for _, order := range e.orders {
+						// the probes on fresh variable objects at the same point
+						base := make([]bool, len(probes))
+						for k := range probes {
+							cs := Case{Prog: probes[k], Type: typ, Order: order, X: x}
+							_, failed := e.evalCase(&cs, jets[k], m, rank)
+							base[k] = !failed
+						}
+						for _, so := range []int{1, 2} {
+							for _, route := range actRoutes {
+								hh := h
+								hh.Order = so
+								for k := range probes {
+									if !base[k] {
+										continue
+									}
+									cs := Case{Prog: probes[k], Type: typ, Order: order, X: x, Act: route, Hist: &hh}
+									e.evalCase(&cs, jets[k], m, rank)
+									e.c.Count("reactivated_after_update_evaluations", 1)
+								}
+							}
+						}
+					}
+					// Matrix.Hessian / Matrix.Jacobian on an argument vector with this history
+					hh := h
+					hh.Order = 1 + int(e.idx%2)
+					cs := Case{Prog: probes[len(probes)-1], Type: typ, Order: 2, X: x, Hist: &hh}
+					if hf := matrixHelperChecks(rt, &cs.Prog, &cs, 0); len(hf) == 0 {
+						e.report(&cs, matrixHelperChecks(rt, &cs.Prog, &cs, hh.Order), rank)
+						e.c.Count("helper_checks_argument_updated_in_place", 1)
+					}
+				}
+			}
+		}
 	}
 }
 
@@ -583,7 +771,7 @@ func (e *engine) phaseDepth2Reduce(thorough bool) {
 			if n == 3 {
 				return // three variables: only reductions feeding a scalar op
 			}
-			reduceInstrs(n, 1, maxLen, 0, false, func(i2 Instr) {
+			reduceInstrs(n, 1, maxLen, 0, false, false, func(i2 Instr) {
 				if !thorough && len(i2.Vec) > 2 {
 					// quick: matrices only with the register on the first diagonal slot
 					if !(i2.Vec[0].K == 'R' && !vecUses(i2.Vec[1:], 0)) {
@@ -598,7 +786,7 @@ func (e *engine) phaseDepth2Reduce(thorough bool) {
 			})
 		})
 		// reduction feeding a scalar op
-		reduceInstrs(n, 0, maxLen, -1, false, func(i1 Instr) {
+		reduceInstrs(n, 0, maxLen, -1, false, false, func(i1 Instr) {
 			if !thorough && (len(i1.Vec) > 2 || (i1.Vec2 != nil && len(i1.Vec) > 1 && !i1.PlainVec2)) {
 				return
 			}
@@ -681,16 +869,27 @@ func (e *engine) phaseDepth3() {
 
 // ---- main ---------------------------------------------------------------------------------------------------
 
+// profShard: which worker writes the CPU profile requested by C01_PROF (development aid).
+func profShard() string {
+	if s := os.Getenv("C01_PROF_SHARD"); s != "" {
+		return s
+	}
+	return "0"
+}
+
 func runAll(c *vf.Ctx) {
 	debug.SetGCPercent(1000) // tiny live heap, very high allocation rate
-	if pf := os.Getenv("C01_PROF"); pf != "" && c.Shard == 0 {
+	if pf := os.Getenv("C01_PROF"); pf != "" && fmt.Sprint(c.Shard) == profShard() {
 		if f, err := os.Create(pf); err == nil {
 			pprof.StartCPUProfile(f)
 			defer pprof.StopCPUProfile()
 		}
 	}
-	e := &engine{c: c, types: []string{"Real64", "Real32"}, orders: []int{1, 2}}
+	e := &engine{c: c, types: []string{"Real64", "Real32"}, orders: []int{1, 2}, nPolHist: polHistQuick}
 	th := c.Thorough()
+	if th {
+		e.nPolHist = len(polHists)
+	}
 	mark := func(name string, t0 time.Time, i0 int64) {
 		if c.Shard == 0 {
 			c.Count("programs_"+name, e.idx-i0)
@@ -703,6 +902,14 @@ func runAll(c *vf.Ctx) {
 	t0, i0 = time.Now(), e.idx
 	e.phaseDepth1Reduce(th)
 	mark("depth1_reduce", t0, i0)
+	t0, i0 = time.Now(), e.idx
+	e.phaseReactivation(th)
+	mark("reactivation_after_in_place_update", t0, i0)
+	if os.Getenv("C01_ONLY") == "depth1" {
+		// development aid: the evidence of such a run says exhaustive:false
+		c.Cap("C01_ONLY=depth1: the depth-2/3 phases were not run")
+		return
+	}
 	t0, i0 = time.Now(), e.idx
 	e.phaseDepth2Scalar(th)
 	mark("depth2_scalar", t0, i0)
@@ -738,7 +945,7 @@ func replay(c *vf.Ctx, raw json.RawMessage) {
 	// re-activated variables; the first rung that fails names the cause
 	base := cs
 	base.Prog = stripAlias(&cs.Prog)
-	base.Pollute, base.Stale, base.Act = 0, 0, ""
+	base.Pollute, base.Stale, base.Act, base.Hist = 0, 0, "", nil
 	ladder := []Case{base}
 	if cs.Pollute > 0 {
 		r := base
@@ -754,7 +961,7 @@ func replay(c *vf.Ctx, raw json.RawMessage) {
 			ladder = append(ladder, r)
 		}
 	}
-	if cs.Stale > 0 || cs.Act != "" {
+	if cs.Stale > 0 || cs.Act != "" || cs.Hist != nil {
 		ladder = append(ladder, cs)
 	}
 	var fails []failure
@@ -773,6 +980,11 @@ func replay(c *vf.Ctx, raw json.RawMessage) {
 		fails = append(fails, helperChecks(rt, &cc.Prog, &cc, out.regs[len(out.regs)-1])...)
 		for stale := 0; stale <= 2 && len(fails) == 0; stale++ {
 			fails = append(fails, matrixHelperChecks(rt, &base.Prog, &base, stale)...)
+		}
+		if cs.Hist != nil && len(fails) == 0 {
+			hb := base
+			hb.Hist = cs.Hist
+			fails = append(fails, matrixHelperChecks(rt, &hb.Prog, &hb, cs.Hist.Order)...)
 		}
 	} else {
 		suffixFails(&cc, fails)
@@ -810,13 +1022,18 @@ func main() {
 		Level: "exploration",
 		Rule: "every straight-line register program over the scalar operations of the Scalar interface (36 unary incl. parameters, 9 binary, 9 reductions) with every operand slot ranging over variables / ConstFloat64 literal / plain Float64 / earlier result registers, every result used; " +
 			"depth 1 at per-operation boundary lattices (all piecewise branch boundaries with +-1,+-2 ulp neighbours), depth 2 (thorough: 3) on the full composition grid; orders 1 and 2; 1..3 variables; Real64 and Real32; fresh and reused (stale) registers. " +
+			"Reuse modes: destination registers and scratch temporaries (in depth-1 programs also the constant-valued magic scalars that are operands of binary operations / vector elements, their value set with SetFloat64) are new objects, objects that held one earlier result of order 1 or 2 over the same number of variables, or objects with a longer history: every sequence of two (thorough: also three) earlier contents with different adjacent orders out of {2,1,0} (2>1, 2>0, 1>2, 1>0, 0>1, 0>2; 2>0>1, 1>2>1, ...), each content assigned over the previous one by Set, the last one by Set or as result of r.Add(src,0); one history per (point, order), rotating with point and program, in the SSA and in every in-place form. " +
+			"Depth-1 reductions over {variables, constant element 2, constant element exactly 0} on a grid containing 0: every zero pattern of the operand vector (leading, trailing, interleaved, all-zero; counted). " +
 			"Every scalar instruction also in its destination-aliases-operand forms (dst = operand a, dst = operand b, both slots and the destination one object: t.Exp(t), t.Mul(t,x), t.Sub(x,t), t.Mul(t,t); on variables, result registers and constant-valued magic scalars; all combinations over the instructions of a program in which no overwritten name is read again; depth 1: every lattice point, depth 2: every grid point for 1-2 variables, every 5th for 3 variables, every 2nd in programs with a reduction), judged against the same reference jets as the SSA form; reductions whose receiver is an element of their own operand are the C08 family and are not repeated here. " +
 			"Variables that are re-activated after having served as order-1/order-2 result registers (same N), through Variables / SetVariable / DenseVector.Variables / DenseMatrix.Variables (one route x stale-order combination per point, rotating; depth 1: every point, depth 2: first grid point) and as argument of Matrix.Hessian / Matrix.Jacobian. " +
+			"Variables that are re-activated after an earlier differentiation round (order 1 and 2) in which every variable was overwritten in place by a depth-1 program reading the variable itself: ALL such programs of the scalar alphabet (every unary Vi:=op(Vi); every binary Vi:=op(Vi,O), op(O,Vi), op(Vi,Vi) with O = next variable / a register T=Vj*Vj depending on another variable / ConstFloat64 / plain Float64; heavy operations in the thorough tier) x earlier points on a 4-value grid (1..3 variables) x new order x all four activation routes, probed by x_i+const for every i, the mean and <x,x> at the point the variables hold afterwards, and as argument of Matrix.Hessian / Matrix.Jacobian. " +
 			"A case (program, point, order, type, register reuse mode) is distinct by construction; it counts as non-trivial when the final register depends on at least one variable, every intermediate is inside the operation's domain and finite, and the reference tolerance of every compared component is below 1e-6 (Real32: 1e-2) of the jet's scale",
 		Assume: []string{
 			"Go's math package (Exp, Log, Erf, Erfc, Gamma, Lgamma, ...) is accurate to a few ulps; it is used as primitive by the reference model",
 			"at a kink between two smooth pieces (Abs at 0, Min/Max tie between different functions) no particular derivative is demanded: every gradient / Hessian slot must be finite and lie between the two one-sided derivatives (tolerance included), slots of variables the register does not depend on must be exactly zero, the Hessian symmetric",
-			"on the boundary of an operation's domain (Sqrt at 0, GammaP at 0) and behind a kink only the value, Hessian symmetry and the absence of finite nonzero content in slots of independent variables are checked",
+			"on the boundary of an operation's domain (Sqrt at 0, GammaP at 0) and behind a kink only the value, Hessian symmetry and the absence of finite nonzero content in slots of independent variables are checked; LogSmoothMax ('SmoothMax computed on log scale') is defined and smooth where entries are exactly 0 (the repository's own test uses such a vector): value and the full jet are demanded there, also with respect to the zero entries (key region 'variable-entry=0')",
+			"a constant with a singular local derivative (Sqrt(0), log 0 inside LogSmoothMax) held in a reused magic scalar of order >= 1 (zero derivatives) may report NaN derivatives (0 * Inf): value and structure only; operands of unary operations and the exponent of Pow (which selects x^const or x^y by the exponent's order) are always new constant objects",
+			"the very first register outside the operation's domain: the call is made once per order on fresh objects and not repeated in the reuse / in-place / re-activation modes (nothing is compared there)",
 			"the instructions behind the first register the reference model leaves undefined (outside the domain, NaN, out of range) are not executed; nothing could be compared there",
 			"an in-place instruction leaves the overwritten variable / register dead (programs reading it again have no SSA equivalent and are not enumerated); the result of an overwritten register is compared on a copy (CloneMagicScalar) taken just before",
 			"reused registers stem from a computation over the same number of variables (the library documents mixing different numbers of variables as misuse)",
